@@ -66,6 +66,9 @@ class Report:
             if site not in [k["site"] for k in self.known_hits]:
                 self.known_hits.append({"site": site, "what": what})
             return None
+        for v in self.violations:
+            if v["site"] == site:
+                return v["replay"]
         d = os.path.join(VERIF, "replays", self.prop)
         os.makedirs(d, exist_ok=True)
         path = os.path.join(d, f"{len(self.violations)}_{_slug(site)}.json")
